@@ -114,18 +114,18 @@ Run(j, mode) ==
      IF m.bad THEN /\ msgs' = mark /\ Emit(hd \o tl)
      ELSE CASE mode = "ok" -> /\ msgs' = mark /\ Emit(hd \o body \o <<seen("post", D)>> \o save(TRUE, "none", D) \o tl)
             [] mode = "nores" -> /\ msgs' = mark /\ Emit(hd \o body \o <<seen("post", D)>> \o tl)
-            [] mode = "fail" ->
+            [] mode \in FailModes ->
                  LET en == cfg.retry.on /\ RetryEnabled(cfg, D)
                      retries == (IF D["_retries"] = 0 THEN 0 ELSE IntOfVid(D["_retries"])) + 1
                      D2 == [D EXCEPT !["_retries"] = IntVid(retries)]
                      resend == en /\ retries < MaxRetries(cfg, D)
-                 IN IF ~en THEN /\ msgs' = mark /\ Emit(hd \o body \o <<seen("post", D)>> \o save(FALSE, "BodyFail", D) \o tl)
+                 IN IF ~en THEN /\ msgs' = mark /\ Emit(hd \o body \o <<seen("post", D)>> \o save(FALSE, IF mode = "fail" THEN "BodyFail" ELSE "BodyFailBase", D) \o tl)
                     ELSE IF resend
                     THEN /\ msgs' = Append(mark, [lab |-> D2, tid |-> m.tid, br |-> 1, ok |-> TRUE,
                                                   gen |-> m.gen + TotalGen(cfg), ran |-> FALSE, bad |-> FALSE])
                          /\ Emit(hd \o body \o SendEvs(cfg, D2, m.tid, 1, TRUE, m.gen, TRUE, j2, "ok") \o <<seen("post", D2)>>
-                                 \o (IF cfg.retry.nores THEN <<>> ELSE save(FALSE, "BodyFail", D)) \o tl)
-                    ELSE /\ msgs' = mark /\ Emit(hd \o body \o <<seen("post", D2)>> \o save(FALSE, "BodyFail", D) \o tl)
+                                 \o (IF cfg.retry.nores THEN <<>> ELSE save(FALSE, IF mode = "fail" THEN "BodyFail" ELSE "BodyFailBase", D)) \o tl)
+                    ELSE /\ msgs' = mark /\ Emit(hd \o body \o <<seen("post", D2)>> \o save(FALSE, IF mode = "fail" THEN "BodyFail" ELSE "BodyFailBase", D) \o tl)
             [] OTHER ->  \* requeue
                  LET D3 == [D EXCEPT !["X-Taskiq-requeue"] = ReqVid(ReqOfVid(@) + 1)]
                      bad == ~RequeueRePrepares /\ Corrupting(cfg, D3)
@@ -135,7 +135,7 @@ Run(j, mode) ==
                             \o <<seen("post", D3)>> \o tl)
   /\ Step /\ UNCHANGED <<decl, kk, idn>>
 
-Modes == {"ok", "fail", "nores", "requeue"}
+Modes == {"ok", "fail", "failb", "nores", "requeue"}
 Next ==
   /\ nops < MaxOps
   /\ \/ \E q \in 1..cfg.nk : NewK(q) \/ WBr(q) \/ (\E x \in {3} : WTid(q, x))
